@@ -180,6 +180,9 @@ impl Prop for Sessions {
         let reference = build_calc(&cfg);
         let mut sessions: Vec<smartcalc::Session> = (0..n).map(|_| smartcalc::Session::new()).collect();
         let mut executed: Vec<Vec<String>> = vec![vec![]; n];
+        let mut clean: Vec<Vec<String>> = vec![vec![]; n];
+        let mut bound: Vec<std::collections::BTreeSet<String>> = vec![Default::default(); n];
+        let mut dropped_failed = 0;
         let mut acc = Acc::new();
         let mut differing_counts = false;
         let mut cross_text_variable = false;
@@ -230,6 +233,46 @@ impl Prop for Sessions {
             if !acc.ok() {
                 break;
             }
+            // second reference: "keeps its variables" - a line that failed to evaluate leaves no trace, so the same
+            // history WITHOUT the lines that failed (other than first-time assignments, whose effect on a never-bound
+            // name the statement does not define) must give the same results for the text just set
+            {
+                let mut kept: Vec<String> = clean[s].clone();
+                kept.extend(lines.iter().cloned());
+                let r2 = match eval_on(&reference, "en", &kept.join("\n")) {
+                    Ok(o) => o,
+                    Err(p) => {
+                        acc.fail(format!("reference panicked at {}: {}", p.site, p.message));
+                        break;
+                    }
+                };
+                let tail2 = &r2.slots[r2.slots.len() - lines.len()..];
+                for (i, (x, y)) in out.slots.iter().zip(tail2.iter()).enumerate() {
+                    if !x.same(y) {
+                        if chrono::Utc::now().date_naive() != today0 {
+                            return Verdict::skip("date changed during the case", rendered);
+                        }
+                        acc.fail(format!("session {}: line {} of the text just set ({:?}) gives {}, but the history without its failed lines ({:?}) gives {}", s, i + 1, lines[i], x.brief(), kept[..kept.len() - lines.len()].join(" ; "), y.brief()));
+                        break;
+                    }
+                }
+                // update the clean history with the lines of this text
+                for (l, slot) in lines.iter().zip(out.slots.iter()) {
+                    let lhs = l.split_once('=').map(|(a, _)| a.trim().to_lowercase());
+                    match (slot, lhs) {
+                        (Slot::Err(_), None) => dropped_failed += 1,
+                        (Slot::Err(_), Some(name)) if bound[s].contains(&name) => dropped_failed += 1,
+                        (Slot::Ok { .. }, Some(name)) => {
+                            bound[s].insert(name);
+                            clean[s].push(l.clone());
+                        }
+                        _ => clean[s].push(l.clone()),
+                    }
+                }
+            }
+            if !acc.ok() {
+                break;
+            }
             if executed[s].len() >= 2 {
                 let earlier = executed[s][..executed[s].len() - 1].join("\n");
                 for name in ["x", "rate", "total cost"] {
@@ -248,13 +291,13 @@ impl Prop for Sessions {
                 }
             }
         }
-        acc.finish(rendered).nt(differing_counts && cross_text_variable).class_if(differing_counts, "texts-of-different-line-counts").class_if(cross_text_variable, "variable-from-an-earlier-text-used").class_if(n >= 2, "two-or-more-sessions").class_if(c.ops.len() >= 6, "six-or-more-texts")
+        acc.finish(rendered).nt(differing_counts && cross_text_variable).class_if(differing_counts, "texts-of-different-line-counts").class_if(cross_text_variable, "variable-from-an-earlier-text-used").class_if(n >= 2, "two-or-more-sessions").class_if(c.ops.len() >= 6, "six-or-more-texts").class_if(dropped_failed > 0, "failed-lines-dropped-from-the-reference")
     }
 }
 
 pub fn session_text() -> impl Strategy<Value = String> {
     let line = prop_oneof![
-        4 => prop::sample::select(vec!["x = 5", "x = x + 1", "x = x * x", "rate = 10 usd", "rate = rate * 2", "x * 2", "x + 1", "rate to try", "rate + 5 usd", "total cost = 3 kg", "total cost * x", "total cost to lb", "x", "rate", "10% of x", "x = 1 +", "rate = (", ""])
+        4 => prop::sample::select(vec!["x = 5", "x = x + 1", "x = x * x", "rate = 10 usd", "rate = rate * 2", "x * 2", "x + 1", "rate to try", "rate + 5 usd", "total cost = 3 kg", "total cost * x", "total cost to lb", "x", "rate", "10% of x", "x = 1 +", "rate = (", "", "x = 2 * 3 usd", "x = 10 + 1 hour", "rate = 5 - 12:30", "rate = 12:30 * 12:30", "total cost = 10 km * 2 kg", "x = x + 1 day"])
             .prop_map(|s| s.to_string()),
         3 => any_line().prop_filter("en", |g| g.lang == "en").prop_map(|g| g.text(",", ".")),
         1 => crate::c01::soup_line(8),
@@ -308,7 +351,7 @@ pub fn regressions() -> Vec<SessionHistory> {
 }
 
 pub fn run(ctx: &Ctx) {
-    ctx.rule("(a) calculator histories: a freshly built long-lived calculator evaluates 1-30 texts drawn from all other generators plus token soup (failing and rule-heavy lines included), then a probe text; (a') related histories: the texts before the probe are variants of the probe itself - same sentence, units, currencies, zones and names, operands replaced by 0, 1, 2, 0.5, 12, 31, 60, 100, 1000, 1e9 - mixed with unrelated texts; oracle: status, every slot (None / error text / output / AST value) and the highlight tokens of the probe equal those on a fresh calculator of the same configuration that evaluates only the probe; (b) session histories over 1-3 sessions sharing one calculator: set_text(text of 1-5 lines incl. empty lines, assignments, CRLF; about one op in six sets the session's previous text again, unchanged or with a trailing blank / line separator) + execute_session; oracle: status true, slot count = line count of the text just set, slots = the last |T| slots of a one-shot execute of the concatenation of all texts that session has executed (fresh calculator, fresh session); non-trivial = (a) history >= 3 texts and the probe yields a value, (b) texts of different line counts on one session and a variable from an earlier text used in a later one");
+    ctx.rule("(a) calculator histories: a freshly built long-lived calculator evaluates 1-30 texts drawn from all other generators plus token soup (failing and rule-heavy lines included), then a probe text; (a') related histories: the texts before the probe are variants of the probe itself - same sentence, units, currencies, zones and names, operands replaced by 0, 1, 2, 0.5, 12, 31, 60, 100, 1000, 1e9 - mixed with unrelated texts; oracle: status, every slot (None / error text / output / AST value) and the highlight tokens of the probe equal those on a fresh calculator of the same configuration that evaluates only the probe; (b) session histories over 1-3 sessions sharing one calculator: set_text(text of 1-5 lines incl. empty lines, assignments, CRLF; about one op in six sets the session's previous text again, unchanged or with a trailing blank / line separator) + execute_session; oracle: status true, slot count = line count of the text just set, slots = the last |T| slots of a one-shot execute of the concatenation of all texts that session has executed (fresh calculator, fresh session), and also of that concatenation WITHOUT the lines that failed to evaluate (a failed line leaves no trace; failed first-time assignments are kept); non-trivial = (a) history >= 3 texts and the probe yields a value, (b) texts of different line counts on one session and a variable from an earlier text used in a later one");
     ctx.assume("lines mentioning now are not generated; execute_session without a preceding set_text is exercised only at the end of a session's life (no assertion beyond not panicking)");
     ctx.run_table(&Sessions, "regressions", regressions(), false);
     let (h, s) = match ctx.tier {
